@@ -168,43 +168,65 @@ Proof.
   intros H. apply app_eq_nil in H. destruct H as [_ H]. unfold two in H. discriminate.
 Qed.
 
-(* the timing line: two stamps around the arrow, optionally followed by cue settings *)
-Lemma vtt_timing_exact : forall strict shift t0 t1 tail last,
+Lemma blank_run_parts : forall w, blank_run w = true ->
+  forallb is_space w = true /\ exists c r, w = c :: r /\ is_space c = true.
+Proof.
+  intros w H. unfold blank_run in H. destruct w as [|c r]; [discriminate|].
+  assert (A : forallb is_space (c :: r) = true).
+  { apply (forallb_impl (fun x => (x =? 32) || (x =? 9))); [|exact H].
+    intros x Hx. unfold is_space. lia. }
+  split; [exact A|]. exists c, r. split; [reflexivity|].
+  cbn [forallb] in A. apply andb_true_iff in A. tauto.
+Qed.
+
+(* the timing line: two stamps around the arrow with any blanks / tabs, optionally followed by cue settings *)
+Lemma vtt_timing_exact : forall strict shift t0 t1 ws1 ws2 tail last,
   vtt_stamp_dom t0 = true -> vtt_stamp_dom t1 = true ->
+  blank_run ws1 = true -> blank_run ws2 = true ->
   (tail = [] \/ exists s, tail = 32 :: s) ->
   (strict = true ->
    us (vtt_instant t0) + shift <= us (vtt_instant t1) + shift /\ last <= us (vtt_instant t0) + shift) ->
-  vtt_parse_timing strict shift (vtt_render_stamp t0 ++ arrow ++ vtt_render_stamp t1 ++ tail) last
+  vtt_parse_timing strict shift (vtt_render_stamp t0 ++ ws1 ++ lit "-->" ++ ws2 ++ vtt_render_stamp t1 ++ tail) last
   = Ok (us (vtt_instant t0) + shift, us (vtt_instant t1) + shift).
 Proof.
-  intros strict shift t0 t1 tail last H0 H1 Htail Hord.
+  intros strict shift t0 t1 ws1 ws2 tail last H0 H1 W1 W2 Htail Hord.
   pose proof (forallb_impl _ _ _ stamp_char_not_space (vtt_render_chars t0 H0)) as N0.
   pose proof (forallb_impl _ _ _ stamp_char_not_space (vtt_render_chars t1 H1)) as N1.
+  destruct (blank_run_parts ws1 W1) as [S1 [c1 [r1 [E1 C1]]]].
+  destruct (blank_run_parts ws2 W2) as [S2 [c2 [r2 [E2 C2]]]].
   assert (G2 : take_while not_space (vtt_render_stamp t1 ++ tail) = vtt_render_stamp t1).
   { destruct Htail as [->|[s ->]].
     - rewrite app_nil_r. apply take_while_all. exact N1.
     - apply take_while_app_stop; [exact N1|reflexivity]. }
-  unfold vtt_parse_timing, vtt_timing_line.
-  change arrow with (32 :: (45 :: 45 :: 62 :: 32 :: [])). cbn [app].
-  rewrite take_while_app_stop, drop_while_app_stop by (first [exact N0|reflexivity]).
-  change (drop_while is_space (32 :: 45 :: 45 :: 62 :: 32 :: vtt_render_stamp t1 ++ tail))
-    with (45 :: 45 :: 62 :: 32 :: vtt_render_stamp t1 ++ tail).
-  change (skipn 3 (45 :: 45 :: 62 :: 32 :: vtt_render_stamp t1 ++ tail))
-    with (32 :: vtt_render_stamp t1 ++ tail).
-  change (drop_while is_space (32 :: vtt_render_stamp t1 ++ tail))
-    with (drop_while is_space (vtt_render_stamp t1 ++ tail)).
-  assert (D : drop_while is_space (vtt_render_stamp t1 ++ tail) = vtt_render_stamp t1 ++ tail).
-  { pose proof (vtt_render_nonempty t1) as Hne.
-    destruct (vtt_render_stamp t1) as [|c rest] eqn:E; [congruence|].
-    cbn [app drop_while]. cbn [forallb] in N1. apply andb_true_iff in N1. destruct N1 as [Nc _].
-    unfold not_space in Nc. destruct (is_space c); [discriminate|reflexivity]. }
-  rewrite D, G2.
   pose proof (vtt_render_nonempty t0) as Hne0. pose proof (vtt_render_nonempty t1) as Hne1.
-  destruct (vtt_render_stamp t0) as [|c0 rest0] eqn:E0; [congruence|]. rewrite <- E0.
-  destruct (vtt_render_stamp t1) as [|c1 rest1] eqn:E1; [congruence|]. rewrite <- E1.
-  change (starts_space (32 :: 45 :: 45 :: 62 :: 32 :: vtt_render_stamp t1 ++ tail)) with true.
-  change (is_prefix (lit "-->") (45 :: 45 :: 62 :: 32 :: vtt_render_stamp t1 ++ tail)) with true.
-  change (starts_space (32 :: vtt_render_stamp t1 ++ tail)) with true.
+  unfold vtt_parse_timing, vtt_timing_line.
+  (* group 1 *)
+  assert (T1 : take_while not_space (vtt_render_stamp t0 ++ ws1 ++ lit "-->" ++ ws2 ++ vtt_render_stamp t1 ++ tail)
+               = vtt_render_stamp t0).
+  { rewrite E1. cbn [app]. apply take_while_app_stop; [exact N0|]. unfold not_space. rewrite C1. reflexivity. }
+  assert (D1 : drop_while not_space (vtt_render_stamp t0 ++ ws1 ++ lit "-->" ++ ws2 ++ vtt_render_stamp t1 ++ tail)
+               = ws1 ++ lit "-->" ++ ws2 ++ vtt_render_stamp t1 ++ tail).
+  { rewrite E1. cbn [app]. apply drop_while_app_stop; [exact N0|]. unfold not_space. rewrite C1. reflexivity. }
+  rewrite T1, D1.
+  assert (D2 : drop_while is_space (ws1 ++ lit "-->" ++ ws2 ++ vtt_render_stamp t1 ++ tail)
+               = lit "-->" ++ ws2 ++ vtt_render_stamp t1 ++ tail).
+  { change (lit "-->" ++ ws2 ++ vtt_render_stamp t1 ++ tail) with (45 :: 45 :: 62 :: ws2 ++ vtt_render_stamp t1 ++ tail).
+    apply drop_while_app_stop; [exact S1|reflexivity]. }
+  rewrite D2.
+  change (skipn 3 (lit "-->" ++ ws2 ++ vtt_render_stamp t1 ++ tail)) with (ws2 ++ vtt_render_stamp t1 ++ tail).
+  assert (D3 : drop_while is_space (ws2 ++ vtt_render_stamp t1 ++ tail) = vtt_render_stamp t1 ++ tail).
+  { destruct (vtt_render_stamp t1) as [|x xs] eqn:EX; [congruence|]. cbn [app].
+    apply drop_while_app_stop; [exact S2|]. cbn [forallb] in N1. apply andb_true_iff in N1. destruct N1 as [Nx _].
+    unfold not_space in Nx. destruct (is_space x); [discriminate|reflexivity]. }
+  rewrite D3, G2.
+  destruct (vtt_render_stamp t0) as [|a0 rest0] eqn:E0; [congruence|]. rewrite <- E0.
+  destruct (vtt_render_stamp t1) as [|a1 rest1] eqn:E1'; [congruence|]. rewrite <- E1'.
+  assert (SS1 : starts_space (ws1 ++ lit "-->" ++ ws2 ++ vtt_render_stamp t1 ++ tail) = true)
+    by (rewrite E1; cbn [app starts_space]; exact C1).
+  assert (SS2 : starts_space (ws2 ++ vtt_render_stamp t1 ++ tail) = true)
+    by (rewrite E2; cbn [app starts_space]; exact C2).
+  rewrite SS1, SS2.
+  change (is_prefix (lit "-->") (lit "-->" ++ ws2 ++ vtt_render_stamp t1 ++ tail)) with true.
   cbn [andb].
   rewrite <- (app_nil_r (vtt_render_stamp t0)), vtt_stamp_exact by exact H0.
   rewrite <- (app_nil_r (vtt_render_stamp t1)), vtt_stamp_exact by exact H1.
@@ -258,10 +280,10 @@ Lemma py_int_digits_str : forall ds, ds <> [] -> digits_ok ds = true ->
   py_int (digits_str ds) = Ok (digits_num ds).
 Proof. intros. unfold py_int. rewrite int_of_digits_str by assumption. reflexivity. Qed.
 
-Lemma dfxp_time_exact : forall e, texpr_dom e = true ->
-  dfxp_time (texpr_render e) = Ok (us (texpr_instant e)).
+Lemma dfxp_time_strict_exact : forall e, texpr_dom e = true ->
+  dfxp_time_strict (texpr_render e) = Ok (us (texpr_instant e)).
 Proof.
-  intros [k h m s t | k ip fr mt] Hd; unfold texpr_dom in Hd; unfold dfxp_time, texpr_render, texpr_instant.
+  intros [k h m s t | k ip fr mt] Hd; unfold texpr_dom in Hd; unfold dfxp_time_strict, texpr_render, texpr_instant.
   - (* clock *)
     assert (Hh : 0 <= h) by lia. assert (Hm : 0 <= m < 60) by lia. assert (Hs : 0 <= s < 60) by lia.
     assert (CL : forall tl, dfxp_clock (padded k h ++ 58 :: two m ++ 58 :: two s ++ tl) =
@@ -343,6 +365,10 @@ Proof.
       rewrite digits_str_length, pos10_pow10. reflexivity.
 Qed.
 
+Lemma dfxp_time_exact : forall e, texpr_dom e = true ->
+  dfxp_time (texpr_render e) = Ok (us (texpr_instant e)).
+Proof. intros e H. unfold dfxp_time. rewrite dfxp_time_strict_exact by exact H. reflexivity. Qed.
+
 Lemma texpr_render_nonempty : forall e, texpr_render e <> [].
 Proof.
   intros [k h m s t|k ip fr mt]; unfold texpr_render; intros H; apply app_eq_nil in H; destruct H as [H _];
@@ -380,15 +406,15 @@ Proof.
 Qed.
 
 (* ============================== MicroDVD ===================================== *)
-Lemma fps_parse_exact : forall f, fps_dom (Some f) = true ->
-  mdvd_fps (fps_render f) =
+Lemma fps_parse_plain_exact : forall f, fps_dom (Some f) = true ->
+  mdvd_fps_plain (fps_render f) =
   Ok (fp_ip f * Zpos (pos10 (length (fp_fr f))) + digits_num (fp_fr f), Zpos (pos10 (length (fp_fr f)))).
 Proof.
   intros [k ip fr] Hd. unfold fps_dom in Hd. cbn [fp_ip fp_fr] in Hd.
   apply andb_true_iff in Hd. destruct Hd as [Hd Hpos].
   apply andb_true_iff in Hd. destruct Hd as [Hip Hfr].
   assert (Hip' : 0 <= ip) by lia.
-  unfold fps_render, mdvd_fps. cbn [fp_pad fp_ip fp_fr].
+  unfold fps_render, mdvd_fps_plain. cbn [fp_pad fp_ip fp_fr].
   assert (ST : forall s, forallb stamp_char s = true -> strip s = s).
   { intros s Hs. unfold strip, strip_by, rstrip_by.
     assert (L : forall x, forallb stamp_char x = true -> lstrip_by is_space x = x).
@@ -418,6 +444,11 @@ Proof.
     rewrite py_int_digits_str by (first [discriminate|exact Hfr]). cbn [bind].
     rewrite digits_str_length, pos10_pow10. reflexivity.
 Qed.
+
+Lemma fps_parse_exact : forall f, fps_dom (Some f) = true ->
+  mdvd_fps (fps_render f) =
+  Ok (fp_ip f * Zpos (pos10 (length (fp_fr f))) + digits_num (fp_fr f), Zpos (pos10 (length (fp_fr f)))).
+Proof. intros f H. unfold mdvd_fps. rewrite fps_parse_plain_exact by exact H. reflexivity. Qed.
 
 (* n frames at rate num/den frames per second *)
 Lemma us_frames : forall n num den, 0 < num ->
@@ -527,7 +558,7 @@ Lemma sami_start_exact : forall k n, 0 <= n -> sami_start (Some (padded k n)) = 
 Proof.
   intros k n Hn. unfold sami_start, truthy.
   destruct (padded k n) as [|p0 pr] eqn:E; [exfalso; exact (padded_nonempty k n E)|]. rewrite <- E.
-  apply py_int_padded. exact Hn.
+  rewrite py_int_padded by exact Hn. reflexivity.
 Qed.
 
 Lemma res_map_ok : forall A B (f : A -> result B) (g : A -> B) l,
@@ -583,3 +614,22 @@ Lemma dfxp_long_fraction_refuted :
   exists ds, digits_ok ds = true /\
              dfxp_fraction_unfixed (digits_str ds) <> Ok (us (frac_q ds)).
 Proof. exists [1; 2; 3; 4]. split; [reflexivity|]. vm_compute. discriminate. Qed.
+
+(* the model's reading of begin+dur (each expression floored on its own) is one of the two the oracle admits *)
+Lemma pairs_alt_refl : forall a b, length a = length b -> (forall i x y, nth_error a i = Some x -> nth_error b i = Some y -> fst x = fst y) ->
+  pairs_alt_eqb a b a = true.
+Proof.
+  induction a as [|x a IH]; intros [|y b] Hl Hs; try discriminate Hl; [reflexivity|].
+  cbn [pairs_alt_eqb]. rewrite !Z.eqb_refl. cbn [andb orb]. apply IH; [cbn [length] in Hl; lia|].
+  intros i u v Hu Hv. apply (Hs (S i)); assumption.
+Qed.
+
+Lemma dfxp_div_meets_oracle : forall ps, forallb dfxp_p_dom ps = true ->
+  ok_times_alt (map dfxp_p_expected ps) (map dfxp_p_expected_alt ps) (dfxp_div_times (map dfxp_p_attrs ps)) = true.
+Proof.
+  intros ps H. rewrite dfxp_div_exact by exact H. unfold ok_times_alt.
+  apply pairs_alt_refl; [rewrite !map_length; reflexivity|].
+  intros i x y Hx Hy. rewrite nth_error_map in Hx, Hy.
+  destruct (nth_error ps i) as [p|]; [|discriminate]. cbn [option_map] in Hx, Hy.
+  inversion Hx; inversion Hy. reflexivity.
+Qed.
